@@ -162,3 +162,98 @@ Section Registry.
         rewrite (unit_reenter (c_tbl r) h x (udim x) Hnd Hh). reflexivity.
   Qed.
 End Registry.
+
+(* ---------------------------------------------------------------- the boolean checks evaluated on the exported registry imply the hypotheses *)
+Lemma nth_error_combine_seq {A} (t : list A) : forall s h x, nth_error t h = Some x ->
+  In ((s + h)%nat, x) (combine (seq s (length t)) t).
+Proof.
+  induction t as [|y t IH]; intros s h x Hh; [destruct h; discriminate|].
+  destruct h as [|h]; simpl in *.
+  - injection Hh as ->. left. f_equal. lia.
+  - right. replace (s + S h)%nat with (S s + h)%nat by lia. apply IH, Hh.
+Qed.
+
+Lemma names_faithfulb_sound r : names_faithfulb r = true -> names_faithful r.
+Proof.
+  unfold names_faithfulb. intros H. rewrite forallb_forall in H.
+  assert (Hx : forall h x, nth_error (c_tbl r) h = Some x ->
+            match leaf_of x with
+            | None => true
+            | Some l => match leaf_name r l with
+                        | Some n => match aget n (c_byname r) with Some h' => Nat.eqb h' h | None => false end
+                        | None => false
+                        end
+            end = true).
+  { intros h x Hh. apply (H (h, x)). apply (nth_error_combine_seq (c_tbl r) 0 h x Hh). }
+  split.
+  - intros h x l n Hh Hl Hn. specialize (Hx h x Hh). rewrite Hl, Hn in Hx.
+    destruct (aget n (c_byname r)) as [h'|]; [|discriminate]. apply Nat.eqb_eq in Hx. congruence.
+  - intros h x l Hh Hl. specialize (Hx h x Hh). rewrite Hl in Hx.
+    destruct (leaf_name r l) as [n|]; [exists n; reflexivity|discriminate].
+Qed.
+
+Lemma nth_error_In' {A} (t : list A) h x : nth_error t h = Some x -> In x t.
+Proof. apply nth_error_In. Qed.
+
+Lemma existsb_leaf r l : existsb (fun b => bool_decide (leaf_of b = Some l)) (c_tbl r) = true ->
+  exists hb b, nth_error (c_tbl r) hb = Some b /\ leaf_of b = Some l.
+Proof.
+  intros H. apply existsb_exists in H as (b & Hin & Hb). apply bool_decide_eq_true in Hb.
+  apply In_nth_error in Hin as [hb Hhb]. exists hb, b. split; assumption.
+Qed.
+
+Lemma factors_storedb_sound r : factors_storedb r = true -> factors_stored r.
+Proof.
+  unfold factors_storedb. intros H h x i e Hh Hie. rewrite forallb_forall in H.
+  specialize (H x (nth_error_In _ _ Hh)). rewrite forallb_forall in H.
+  specialize (H (i, e)). apply existsb_leaf. apply H.
+  apply elem_of_list_In, elem_of_map_to_list, Hie.
+Qed.
+
+Lemma one_storedb_sound r : one_storedb r = true -> one_stored r.
+Proof. apply existsb_leaf. Qed.
+
+Lemma pcanonb_sound p : pcanonb p = true -> pcanon p.
+Proof.
+  unfold pcanonb, pcanon. destruct (Z.eqb (pbase p) 0) eqn:Eb; intros H.
+  - apply Z.eqb_eq in Eb, H. split; [intros _; exact H|intros Hne; contradiction].
+  - apply Z.eqb_neq in Eb. apply negb_true_iff, Z.eqb_neq in H. split; [intros He; contradiction|intros _; exact H].
+Qed.
+
+Lemma stored_okb_sound r : stored_okb r = true -> stored_ok r.
+Proof.
+  unfold stored_okb. intros H h x Hh. rewrite forallb_forall in H. specialize (H x (nth_error_In _ _ Hh)).
+  apply andb_true_iff in H as [H Hp]. apply andb_true_iff in H as [Hf Hd].
+  rewrite forallb_forall in Hf, Hd. split; [|split].
+  - intros k Hk. specialize (Hf (k, 0)). cbn in Hf. assert (false = true); [|discriminate].
+    apply Hf. apply elem_of_list_In, elem_of_map_to_list, Hk.
+  - split.
+    + intros k Hk. specialize (Hd (k, 0)). cbn in Hd. assert (false = true); [|discriminate].
+      apply Hd. apply elem_of_list_In, elem_of_map_to_list, Hk.
+    + intros k [v Hv]. specialize (Hd (k, v)). cbn in Hd.
+      assert (Hin : In (k, v) (map_to_list (udim x))) by (apply elem_of_list_In, elem_of_map_to_list, Hv).
+      specialize (Hd Hin). apply andb_true_iff in Hd as [_ Hle]. apply Nat.leb_le in Hle. exact Hle.
+  - apply pcanonb_sound, Hp.
+Qed.
+
+Lemma keys_uniqueb_sound t : keys_uniqueb t = true -> NoDupK t.
+Proof.
+  unfold NoDupK. induction t as [|x t IH]; intros H; [apply NoDup_nil_2|].
+  cbn in H. apply andb_true_iff in H as [Hx Ht]. cbn [map]. apply NoDup_cons. split; [|apply IH, Ht].
+  intros Hin. apply elem_of_list_fmap in Hin as (y & Hk & Hy). rewrite forallb_forall in Hx.
+  specialize (Hx y). apply elem_of_list_In in Hy. specialize (Hx Hy). apply negb_true_iff in Hx.
+  unfold ukey_eqb, feqb in Hx. assert (Hp : upre x = upre y) by (exact (f_equal fst Hk)).
+  assert (Hf : ufac x = ufac y) by (exact (f_equal snd Hk)).
+  rewrite Hp, Hf in Hx. rewrite !bool_decide_eq_true_2 in Hx by reflexivity. discriminate.
+Qed.
+
+Definition registry_okb (r : creg) : bool :=
+  keys_uniqueb (c_tbl r) && names_faithfulb r && factors_storedb r && one_storedb r && stored_okb r.
+
+Theorem json_unit_roundtrip_checked r : registry_okb r = true ->
+  forall h x, nth_error (c_tbl r) h = Some x -> dec_unit r (enc_unit r x) = DOk (c_tbl r, h).
+Proof.
+  unfold registry_okb. intros H. repeat (apply andb_true_iff in H as [H ?]).
+  apply json_unit_roundtrip;
+    [apply names_faithfulb_sound|apply factors_storedb_sound|apply one_storedb_sound|apply keys_uniqueb_sound|apply stored_okb_sound]; assumption.
+Qed.
